@@ -289,35 +289,23 @@ func vhPreState(gen vhGen, maxSeg int, allowed []int) *Path {
 }
 
 // vhHypotQ: a sound over-approximation of math.Hypot for the rational domain that avoids
-// non-linear constraints: some h with max(|x|,|y|) <= h <= |x|+|y| (and h = 0 iff x = y = 0).
+// non-linear constraints: some h with max(|x|,|y|) <= h <= |x|+|y| (exact when x or y is 0).
+// Branch-free so that the engine never forks inside the stub.
 func vhHypotQ(x, y float64) float64 {
 	ax, ay := math.Abs(x), math.Abs(y)
-	if ay == 0 {
-		return ax
-	}
-	if ax == 0 {
-		return ay
-	}
 	h := vNondetF64()
 	vAssume(h >= ax && h >= ay && h <= ax+ay)
 	return h
 }
 
 // vhAtan2Sign: atan2 over-approximated by its sign/zero structure: result r in (-pi, pi] with
-// sign(r) = sign(y), r = 0 iff (y = 0 and x > 0) [x = y = 0 gives 0].
+// sign(r) = sign(y); r = 0 iff y = 0 and x >= 0; r = pi iff y = 0 and x < 0.
 func vhAtan2Sign(y, x float64) float64 {
-	if y == 0 {
-		if x >= 0 {
-			return 0
-		}
-		return math.Pi
-	}
 	r := vNondetF64()
-	if y > 0 {
-		vAssume(0 < r && r < math.Pi)
-	} else {
-		vAssume(-math.Pi < r && r < 0)
-	}
+	vAssume((y != 0 || x < 0 || r == 0) &&
+		(y != 0 || x >= 0 || r == math.Pi) &&
+		(y <= 0 || (0 < r && r < math.Pi)) &&
+		(y >= 0 || (-math.Pi < r && r < 0)))
 	return r
 }
 
